@@ -315,15 +315,8 @@ func ruleC08Precommit(r *Run) {
 	r.Check("C08-RECORD", "(*responseWriter).WriteHeader:no underlying call", wh.Pos(), len(bad) == 0, "WriteHeader records the status only; the real commit is lazy")
 	for i, st := range storesToField(wh, m.statusF) {
 		okG := st.Val == ssa.Value(wh.Params[1]) && factHolds(st, func(cond ssa.Value, truth bool) bool {
-			b, ok := cond.(*ssa.BinOp)
-			if !ok || !truth {
-				return false
-			}
-			if b.X == ssa.Value(wh.Params[1]) {
-				c, okc := constInt(b.Y)
-				return okc && ((b.Op == token.GTR && c == 0) || (b.Op == token.GEQ && c == 1))
-			}
-			return false
+			lb, ok := lowerBoundFact(cond, truth, ssa.Value(wh.Params[1]))
+			return ok && lb >= 1
 		})
 		r.Check("C08-RECORD", fmt.Sprintf("(*responseWriter).WriteHeader:store status#%d", i+1), w.InstrPos(st), okG, map[bool]string{true: "status parameter recorded only when positive", false: "status recorded without the 'status > 0' guard or from another value"}[okG])
 	}
